@@ -84,15 +84,24 @@ class C08(Prop):
     def model_check(self, ctx, obs):
         direct = [(int(r["n"]), r["min"], r["max"]) for r in obs["direct"]]
         loops = [r for r in obs["loop"] if not r.get("error")]
-        body = ["From Coq Require Import ZArith List Bool.", "From IP Require Import Agent.BackoffCheck.", "Import ListNotations.", "Open Scope Z_scope.",
-                "Definition direct_cases : list (Z*Z*Z) := " + C.llit("(%s,%s,%s)" % (C.zlit(a), C.zlit(b), C.zlit(c)) for a, b, c in direct) + ".",
-                "Definition loop_cases : list (list bool * list Z) := " + C.llit(
-                    "(%s,%s)" % (C.llit(C.blit(k in (0, 8)) for k in r["pattern"]), C.llit(C.zlit(g) for g in r["gaps"])) for r in loops) + ".",
-                "Definition verif_result : list Z := Eval vm_compute in (bad_indices direct_ok 0 direct_cases ++ bad_indices (loop_ok %d) 1000000 loop_cases)." % SLACK]
-        txt, out, dt = C.eval_cases(ctx.work, "cases_c08", "\n".join(body))
-        if txt is None:
-            return [("cases_c08.v (model evaluation)", "coqc failed: " + out[-600:], {})], 0, {"coqc_s": dt}
-        bad = C.parse_z_list(txt)
+        # sharded: one huge list literal overflows coqc's stack in the thorough tier
+        bad, dt = [], 0.0
+        DS, LS = 4000, 400
+        shards = [("d", k, direct[k:k + DS]) for k in range(0, len(direct), DS)] + [("l", k, loops[k:k + LS]) for k in range(0, len(loops), LS)]
+        for kind, k0, part in shards:
+            body = ["From Coq Require Import ZArith List Bool.", "From IP Require Import Agent.BackoffCheck.", "Import ListNotations.", "Open Scope Z_scope."]
+            if kind == "d":
+                body += ["Definition direct_cases : list (Z*Z*Z) := " + C.llit("(%s,%s,%s)" % (C.zlit(a), C.zlit(b), C.zlit(c)) for a, b, c in part) + ".",
+                         "Definition verif_result : list Z := Eval vm_compute in (bad_indices direct_ok 0 direct_cases)."]
+            else:
+                body += ["Definition loop_cases : list (list bool * list Z) := " + C.llit(
+                    "(%s,%s)" % (C.llit(C.blit(k in (0, 8)) for k in r["pattern"]), C.llit(C.zlit(g) for g in r["gaps"])) for r in part) + ".",
+                    "Definition verif_result : list Z := Eval vm_compute in (bad_indices (loop_ok %d) 0 loop_cases)." % SLACK]
+            txt, out, d1 = C.eval_cases(ctx.work, "cases_c08_%s%d" % (kind, k0), "\n".join(body))
+            dt += d1
+            if txt is None:
+                return [("cases_c08.v (model evaluation)", "coqc failed: " + out[-600:], {})], 0, {"coqc_s": dt}
+            bad += [(1000000 if kind == "l" else 0) + k0 + v for v in C.parse_z_list(txt)]
         mism = []
         for i in bad:
             if i >= 1000000:
